@@ -23,7 +23,7 @@ impl Write for Piecemeal {
 
 fn linear(bytes: &[u8], cfg: &Cfg, chosen: &[String], rng: &mut Rng) -> Result<BTreeMap<String, Vec<u8>>, String> {
     let r = std::panic::catch_unwind(std::panic::AssertUnwindSafe(|| {
-        let mut ar = ArchiveReader::from_config(Cursor::new(bytes), cfg.reader_config()).map_err(|e| format!("open:{}", err_class(&e)))?;
+        let mut ar = ArchiveReader::from_config(used_cursor(bytes), cfg.reader_config()).map_err(|e| format!("open:{}", err_class(&e)))?;
         // one time in two the reader has been used before (a hash, a partly read file, a first linear pass):
         // linear extraction starts from the beginning whatever the reader did before
         match rng.below(4) {
